@@ -16,12 +16,13 @@ from vlib.sim import Sim
 PROPERTY = 'C02'
 RULE = ('adversarial prefixes over the C01 alphabet (no operator stop; biased to peer OPEN hold 0/1/2/3, bad '
         'version/AS, malformed frames, refused/timed-out attempts, resets) x {(hold,idle_hold,connect_retry)} = '
-        '{(180,30,60),(9,5,60),(30,1,40),(180,30,30),(0,30,60)}, then a cooperative peer. Non-trivial = prefix contains '
+        '{(180,30,60),(9,5,60),(30,1,40),(180,30,30),(0,30,60),...}, peer messages whole or in several TCP segments, then a cooperative peer (prompt, or answering the OPEN 2..200 s later). Non-trivial = prefix contains '
         'a failed connection or a protocol error; distinct by (prefix, configuration).')
 ASSUMPTIONS = [
     'cooperative peer: accepts a pending attempt at once, closes an inherited connection, answers OPEN with a valid '
     'OPEN (hold 90) and KEEPALIVE, then KEEPALIVE every H/3',
-    'bound = idle_hold_time + max(connect_retry_time, 30) + 1 s from the hand-over',
+    'bound = idle_hold_time + max(connect_retry_time, 30) + 1 s from the hand-over (+ the latency of the peer, when it is a slow one)',
+    'a slow cooperative peer answers the agent\'s OPEN 2..200 s later (inside the 240 s an agent waits in OpenSent)',
 ]
 EXHAUSTIVE = {'quick': False, 'thorough': False}
 
@@ -84,7 +85,7 @@ def operator_start(d):
         d.history.append(['start'])
 
 
-def handover(d, cfg, bgp_id=ss.PEER_ID):
+def handover(d, cfg, bgp_id=ss.PEER_ID, open_delay=0):
     """-> list of (sig, detail)"""
     sim = d.sim
     out = []
@@ -104,8 +105,10 @@ def handover(d, cfg, bgp_id=ss.PEER_ID):
     if not pending['live'] and not pending['attempts'] and not pending['timers']:
         out.append(('nothing-pending:%s' % before_state, 'at hand-over (t=%s, state %s) no connection, attempt or timer is pending'
                     % (t0, before_state)))
-    bound = cfg['idle_hold'] + max(cfg['connect_retry'], 30) + 1
-    est = ss.cooperate(sim, t0 + bound, peer_hold=PEER_HOLD, bgp_id=bgp_id)
+    # (a slow but correct peer answers the agent's OPEN open_delay seconds later - well inside the 4-minute wait RFC 4271
+    # prescribes for OpenSent; the bound grows by that latency)
+    bound = cfg['idle_hold'] + max(cfg['connect_retry'], 30) + 1 + open_delay
+    est = ss.cooperate(sim, t0 + bound, peer_hold=PEER_HOLD, bgp_id=bgp_id, open_delay=open_delay)
     if est is None:
         out.append(('not-reestablished:from-%s:ends-%s' % (before_state, sim.state),
                     'not ESTABLISHED within %ss of the hand-over (state %s -> %s; pending at hand-over %r; now %r)'
@@ -156,7 +159,7 @@ def run_case(case):
         d.apply(pick(d.enabled(), ch))
     res = [f for f in d.failures if f[0].startswith(('escaped', 'livelock'))]
     operator_start(d)
-    res += handover(d, cfg, case.get('peer_id', ss.PEER_ID))
+    res += handover(d, cfg, case.get('peer_id', ss.PEER_ID), case.get('open_delay', 0))
     return d, res
 
 
@@ -170,7 +173,7 @@ def run_explicit(case):
         d.apply(list(ev))
     res = [f for f in d.failures if f[0].startswith(('escaped', 'livelock'))]
     operator_start(d)
-    res += handover(d, cfg, case.get('peer_id', ss.PEER_ID))
+    res += handover(d, cfg, case.get('peer_id', ss.PEER_ID), case.get('open_delay', 0))
     return d, res
 
 
@@ -244,13 +247,14 @@ def run_shard(spec, seed, col, tier):
 
     def body(case):
         d, res = run_case(case)
-        explicit = {'cfg': case['cfg'], 'events': d.history, 'peer_id': case.get('peer_id', ss.PEER_ID)}
+        explicit = {'cfg': case['cfg'], 'events': d.history, 'peer_id': case.get('peer_id', ss.PEER_ID), 'open_delay': case.get('open_delay', 0)}
         col.case(explicit, nontrivial(d.history), labels=['cfg:%(hold)s/%(idle_hold)s/%(connect_retry)s' % case['cfg']])
         for sig, detail in res:
             col.fail(sig, explicit, detail)
     strat = st.fixed_dictionaries({'cfg': st.sampled_from(CONFIGS),
                                    # the well-behaved peer may come back with another BGP identifier than the history used
                                    'peer_id': st.sampled_from([ss.PEER_ID, ss.PEER_ID, '10.0.0.77', '192.0.2.1']),
+                                   'open_delay': st.sampled_from([0, 0, 0, 2, 29, 31, 45, 100, 200]),
                                    'choices': st.lists(st.integers(0, 999), min_size=0, max_size=spec['steps'])})
     hyp_run(col, strat, body, seed, spec['examples'])
 
